@@ -664,6 +664,82 @@ pub fn shell_case(label: &str, tier: &str, seed: u64, k: u64, n: usize) -> Case 
     c
 }
 
+/// Drum input: one generator on the axis of a ring of m equidistant (or slightly jittered) generators, plus farther generators
+/// on (or near) the axis. The ring turns the central cell into a prism with m side faces whose two m-gonal end caps lie on the box
+/// walls; the bisector of an axis generator - visited after the ring, because it is farther away - then cuts off a whole cap:
+/// ONE clip that removes m vertices (and creates m) at once, a boundary cycle of m triangles. Everything else in this harness
+/// removes a handful of vertices per clip. Only the centre, two ring cells and the axis cells are constructed.
+pub fn drum_case(label: &str, tier: &str, seed: u64, k: u64, m: usize) -> Case {
+    let mut g = Rng::stream(&format!("{label}drum"), &[crate::rng::mix(tier, &[]), seed, k, m as u64]);
+    let l = *g.pick(&[1., 1., 1e-3, 1e3]);
+    let width = DVec3::splat(l);
+    let anchor = DVec3::from_array(*g.pick(&[[0., 0., 0.], [-0.5, -0.5, -0.5], [3.3, -7.1, 11.9]])) * l;
+    let axis = g.below(3);
+    let (ax1, ax2) = ((axis + 1) % 3, (axis + 2) % 3);
+    let c0 = anchor + width * (DVec3::splat(0.5) + 0.05 * DVec3::new(g.f() - 0.5, g.f() - 0.5, g.f() - 0.5));
+    let rad = l * (0.08 + 0.1 * g.f());
+    let jitter = *g.pick(&[0., 1e-6, 1e-3]);
+    let mut pts = vec![c0];
+    let phase = g.f();
+    for i in 0..m {
+        let phi = 2. * std::f64::consts::PI * (i as f64 + phase) / m as f64;
+        let rr = rad * (1. + jitter * (g.f() - 0.5));
+        let mut p = c0;
+        p[ax1] += rr * phi.cos();
+        p[ax2] += rr * phi.sin();
+        p[axis] += rad * jitter * (g.f() - 0.5);
+        pts.push(p);
+    }
+    // axis generators: farther away than the ring, on one or both sides, optionally slightly off the axis (oblique cap)
+    let tilt = *g.pick(&[0., 0., 0.02, 0.3]);
+    let both = g.bool();
+    let mut axis_idx = vec![];
+    for (q, sign) in [1.0f64, -1.0].iter().enumerate() {
+        if q == 1 && !both {
+            break;
+        }
+        let dist = rad * (1.15 + 1.2 * g.f());
+        let mut p = c0;
+        p[axis] += sign * dist;
+        p[ax1] += tilt * dist * (g.f() - 0.5);
+        p[ax2] += tilt * dist * (g.f() - 0.5);
+        axis_idx.push(pts.len());
+        pts.push(p);
+    }
+    let periodic = g.below(3) == 0;
+    let mut c = Case {
+        family: "drum".into(),
+        dim: 3,
+        periodic,
+        anchor,
+        width,
+        pts,
+        mask: None,
+        origin: format!("{label}drum/{tier}/seed{seed}/case{k}/m{m}"),
+    };
+    c.dedup();
+    if c.n() == m + 1 + axis_idx.len() {
+        let mut mk = vec![false; c.n()];
+        mk[0] = true;
+        // an exactly equidistant ring (equidistant up to the rounding of cos / sin, that is) is co-circular, and a circle is
+        // co-spherical with any further point: every in-sphere test inside a ring cell is a tie at rounding level (survey: 9 of
+        // 1280 inputs panicked, all of them with jitter 0 and ring cells constructed - finding F5). With jitter 0 only the centre
+        // cell is constructed (its own tests are far from ties), with jitter >= 1e-6 also two ring cells.
+        if jitter > 0. {
+            mk[1 + g.below(m)] = true;
+            mk[1 + g.below(m)] = true;
+        }
+        // the cells of the axis generators are NOT constructed for large rings: seen from an axis generator the ring is
+        // (nearly) co-spherical with the centre, m bisectors pass (nearly) through one point - the regime of finding F5
+        // (survey: 9 of 320 inputs panicked on the unchanged tree, all with m >= 129 and the axis cells constructed)
+        let _ = axis_idx;
+        if m > 64 || jitter == 0. || g.bool() {
+            c.mask = Some(mk);
+        }
+    }
+    c
+}
+
 /// Wedge input: a few ordinary generators in a cubic box near the origin plus one pair `d` box widths apart
 /// (1e-6 <= d <= 1e-5; at 3e-7 one input in 90 000 panicked on the unchanged tree, finding F5): every common neighbour of the pair has two faces that are parallel within ~d/distance.
 pub fn wedge_case(label: &str, tier: &str, seed: u64, k: u64) -> Case {
